@@ -65,6 +65,7 @@ class ActivationMonitor:
     def __init__(self, ctx, fl):
         self.ctx, self.fl = ctx, fl
         self.trace = None  # dict while an activation is being observed
+        self.rejected = set()  # id(rule) of rules whose load the workload saw rejected
 
     def install(self, probe):
         fl = self.fl
@@ -82,6 +83,9 @@ class ActivationMonitor:
             for c in rule.consequent.conclusions:
                 if c.variable is not None and hasattr(c.variable, "fuzzy"):
                     outs[id(c.variable)] = c.variable
+        for rule in block.rules:
+            if id(rule) in self.rejected and rule.is_loaded():
+                self.ctx.violation("a rule whose load was rejected reports loaded and competes for activation", {"rule": rule.text}, False, True)
         self.trace = {
             "block": block,
             "events": [],
@@ -167,8 +171,9 @@ class ActivationMonitor:
             ctx.hit(f"event:activate_raised:{type(exc).__name__}")
             return  # a missing operator etc. - not this property's business
         if any(math.isnan(float(d)) for d in degs_seen.values()):
-            ctx.hit("out_of_domain:NaN activation degree")
-            return
+            # a NaN degree (an input that was never set) is neither > 0 nor >= t: the definitions select such a rule only
+            # under General and under Threshold with `!=`
+            ctx.hit("piece:NaN activation degree")
         ctx.hit(f"method:{kind}")
         # (1) every loaded rule computed its degree exactly once, unloaded rules never
         counts = {}
@@ -208,7 +213,7 @@ class ActivationMonitor:
             final = (newdeg[k] if (newdeg and k in newdeg) else deg[k]) if t["loaded"][k] else 0.0
             got_deg = float(np.asarray(rule.activation_degree))
             tol = 1e-15 if kind == "Proportional" else 0.0
-            if abs(got_deg - final) > tol:
+            if not (abs(got_deg - final) <= tol or (math.isnan(got_deg) and math.isnan(final))):
                 ctx.violation(f"{kind}: rule's activation degree after activation differs", dict(case, rule=k), final, got_deg)
             want_trig = (k in sel) and t["enabled"][k] and final > 0.0
             got_trig = bool(np.asarray(rule.triggered))
@@ -236,6 +241,14 @@ class ActivationMonitor:
 # ---- workload ------------------------------------------------------------------------------------------------------------
 
 
+REJECTED, KEEP = set(), []
+
+
+def rnd_tail(k):
+    """what makes a consequent unloadable after a first good conclusion"""
+    return [" and nosuchvariable is x", " and o is nosuchterm", " and o is", " and", " and i0 is t"][k % 5]
+
+
 def make_engine(fl, n, weights, enabled, loaded, two_outputs=False):
     """Rule k reads its own input through Ramp(0,1): its degree is exactly weight_k x input_k."""
     ivs = [fl.InputVariable(f"i{k}", minimum=0.0, maximum=1.0, terms=[fl.Ramp("t", 0.0, 1.0)]) for k in range(n)]
@@ -245,9 +258,16 @@ def make_engine(fl, n, weights, enabled, loaded, two_outputs=False):
     e = fl.Engine("e", input_variables=ivs, output_variables=ovs)
     rules = []
     for k in range(n):
-        text = f"if i{k} is t then o is t{k}" + (" and p is u" if two_outputs and k % 2 == 0 else "") + (f" with {weights[k]}" if weights[k] != 1 else "")
+        text = f"if i{k} is t then o is t{k}" + (" and p is u" if two_outputs and k % 2 == 0 else "") + (rnd_tail(k) if loaded[k] == "rejected" else "") + (f" with {weights[k]}" if weights[k] != 1 else "")
         r = fl.Rule.create(text)
-        if loaded[k]:
+        if loaded[k] == "rejected":
+            try:
+                r.load(e)
+            except Exception:
+                pass
+            REJECTED.add(id(r))
+            KEEP.append(r)
+        elif loaded[k]:
             r.load(e)
         r.enabled = enabled[k]
         rules.append(r)
@@ -298,7 +318,11 @@ def drive(ctx, fl, e, vals, acts, weights, instances=None, form="float", route="
                     rule.unload()
                     ctx.hit("event:a rule that took part in an activation is unloaded")
                 elif c < 0.3 and not rule.is_loaded():
-                    rule.load(e)
+                    try:
+                        rule.load(e)
+                    except Exception:
+                        if id(rule) not in REJECTED:
+                            raise
                 elif c < 0.4:
                     rule.enabled = not rule.enabled
         if form == "one row through Engine.input_values":
@@ -316,7 +340,7 @@ def drive(ctx, fl, e, vals, acts, weights, instances=None, form="float", route="
             if rule.is_loaded() and kind != "Proportional":
                 exp = weights[k] * vals[k]
                 got = float(np.asarray(rule.activation_degree))
-                if got != exp:
+                if got != exp and not (math.isnan(got) and math.isnan(exp)):
                     ctx.violation("activation degree differs from weight x input in the constructed block", {"rule": k, "method": kind, "input": vals[k], "weight": weights[k]}, exp, got)
 
 
@@ -336,22 +360,26 @@ def run(ctx):
     with Reach(funcs) as reach, Probe() as probe:
         mon = ActivationMonitor(ctx, fl)
         mon.install(probe)
+        mon.rejected = REJECTED
         alpha = [0.0, 0.25, 0.5, 1.0]
         thresholds = (0.0, 0.25, 0.3, 1.0)
         configs = []
         for n in range(1, maxn + 1):
-            for special in [None] + [(k, m) for k in range(n) for m in ("disabled", "unloaded")]:
+            for special in [None] + [(k, m) for k in range(n) for m in ("disabled", "unloaded", "rejected") if m != "rejected" or k in (0, n - 1)]:
                 configs.append((n, special))
         for i, rnd in ctx.cases("exhaustive", len(configs)):
             n, special = configs[i]
             enabled, loaded = [True] * n, [True] * n
             if special:
-                (enabled if special[1] == "disabled" else loaded)[special[0]] = False
+                if special[1] == "disabled":
+                    enabled[special[0]] = False
+                else:
+                    loaded[special[0]] = False if special[1] == "unloaded" else "rejected"
             weights = [1] * n
             e = make_engine(fl, n, weights, enabled, loaded)
             acts = all_methods(fl, n, thresholds)
             instances = {} if i % 2 == 0 else None
-            for j, vals in enumerate(itertools.product(alpha, repeat=n)):
+            for j, vals in enumerate(itertools.product(alpha + ([math.nan] if n <= 2 else []), repeat=n)):
                 drive(ctx, fl, e, vals, acts, weights, instances, form=FORMS[(i + j) % len(FORMS)], route=ROUTES[i % len(ROUTES)])
             if instances is not None:
                 ctx.hit("event:activation instances reused")
@@ -361,12 +389,12 @@ def run(ctx):
             n = rnd.randrange(5, 9)
             weights = [rnd.choice([1, 0.5, 0.25, 0.75]) for _ in range(n)]
             enabled = [rnd.random() > 0.15 for _ in range(n)]
-            loaded = [rnd.random() > 0.1 for _ in range(n)]
+            loaded = [rnd.choice([True] * 8 + [False, "rejected"]) for _ in range(n)]
             e = make_engine(fl, n, weights, enabled, loaded, two_outputs=rnd.random() < 0.5)
             if rnd.random() < 0.2:
                 e.output_variables[0].enabled = False
             acts = rnd.sample(all_methods(fl, n, (0.0, 0.125, 0.25, 0.3, 0.5, 1.0)), 12)
-            vals = [rnd.choice([0.0, 0.125, 0.25, 0.5, 0.5, 1.0, rnd.randrange(0, 17) / 16, 1e-17, 1e-300, 5e-324]) for _ in range(n)]
+            vals = [rnd.choice([0.0, 0.125, 0.25, 0.5, 0.5, 1.0, rnd.randrange(0, 17) / 16, 1e-17, 1e-300, 5e-324, math.nan]) for _ in range(n)]
             drive(ctx, fl, e, vals, acts, weights, form=rnd.choice(FORMS), route=rnd.choice(ROUTES))
             # the same block driven again while its rules are unloaded / reloaded / disabled in between
             for _ in range(3):
@@ -411,7 +439,7 @@ def run(ctx):
             ctx.require(f"batch:{m}")
     for m in ("Highest", "Lowest", "First", "Last"):
         ctx.require(f"piece:{m}:tie", f"piece:{m}:n>eligible", f"piece:{m}:n<eligible", f"piece:{m}:disabled-rule", f"piece:{m}:unloaded-rule")
-    ctx.require("piece:Threshold:threshold-equals-a-degree", "piece:First:threshold-equals-a-degree", "event:activation instances reused", "piece:block without loaded rules", "event:a rule that took part in an activation is unloaded")
+    ctx.require("piece:Threshold:threshold-equals-a-degree", "piece:First:threshold-equals-a-degree", "event:activation instances reused", "piece:block without loaded rules", "event:a rule that took part in an activation is unloaded", "piece:NaN activation degree")
     for r in ROUTES:
         ctx.require("route:" + r)
     for f in FORMS:
